@@ -92,6 +92,8 @@ type Interp struct {
 	now         *smt.Term // frozen clock: symbolic instant + harness-controlled advances
 	timerBudget int
 
+	freshTerms []*smt.Term
+	stubs      map[string]Value
 	tmpDefined map[string]bool
 	allocSeen  map[string]bool
 	funcsSeen  map[string]bool
@@ -113,7 +115,20 @@ func (in *Interp) fresh(tag string, w int) *smt.Term {
 	n := in.symCount[tag]
 	in.symCount[tag] = n + 1
 	name := fmt.Sprintf("%s!%d", sanitize(tag), n)
-	return in.ctx.Var(name, w)
+	if in.eng.ReplayModel != nil {
+		// concrete re-execution of a counterexample inside the interpreter
+		v, ok := in.eng.ReplayModel[name]
+		if !ok {
+			in.res.ReplayMissing = append(in.res.ReplayMissing, name)
+		}
+		if w == 0 {
+			return in.ctx.Bool(v != 0)
+		}
+		return in.ctx.BV(v, w)
+	}
+	t := in.ctx.Var(name, w)
+	in.freshTerms = append(in.freshTerms, t)
+	return t
 }
 
 func sanitize(s string) string {
@@ -534,6 +549,10 @@ func (in *Interp) callFunction(fn *ssa.Function, args []Value, env []Value) Valu
 	name := fn.String()
 	if fn.Origin() != nil {
 		name = fn.Origin().String()
+	}
+	if st, ok := in.stubs[name]; ok {
+		in.res.Events = append(in.res.Events, "stub:"+name)
+		return in.call(st, args, 0)
 	}
 	if intr, ok := in.eng.intrinsics[name]; ok {
 		for i := range args {
